@@ -56,6 +56,9 @@ def main():
             dst = os.path.join(ROOT, name + ".replays")
             shutil.rmtree(dst, ignore_errors=True)
             shutil.copytree(rp, dst)
+        import json
+        summ = {p: {"exit": v[0], "verdict": {0: "missed", 1: "caught", 2: "harness-error"}.get(v[0], "other"), "lines": v[1][:4]} for p, v in results.items()}
+        json.dump({"name": name, "tier": tier, "results": summ}, open(os.path.join(ROOT, name + ".result.json"), "w"), indent=1)
         rc = 0 if any(v[0] == 1 for v in results.values()) else 1
     finally:
         if not keep:
